@@ -157,7 +157,7 @@ func runC03(c *Ctx) {
 	moves := []string{"next", "prev", "left", "right", "up", "min", "max"}
 	// deep trees: a long spine (no rebalancing) with a bushy subtree at its
 	// bottom, cursors working below depth 64 with clones in between
-	for i := 0; i < c.Pick(4, 40); i++ {
+	for i := 0; i < c.Pick(5, 60); i++ {
 		rng := c.Rng("c03-deep", i)
 		h := c.NewHist("deep-spine")
 		st := &c03state{}
@@ -170,19 +170,21 @@ func runC03(c *Ctx) {
 		bush := []int{base + 400, base + 200, base + 600, base + 100, base + 300, base + 500, base + 700, base + 50, base + 150, base + 650, base + 750}
 		pre = append(pre, bush...)
 		h.Emit(c03exec(c, st, Op{"op": "new", "pre": pre, "beta": 1000, "mag": rng.Intn(5)}, rng))
-		for j := 0; j < 60; j++ {
+		emit := func(op Op) { op["stop"] = 1; h.Emit(c03exec(c, st, op, rng)) }
+		for j := 0; j < 14; j++ {
+			// position a cursor in the bushy bottom, clone it, then make one of the two
+			// climb and descend again (shorten, then extend the path); both are observed
 			ci := 1 + rng.Intn(2)
-			var op Op
-			switch r := rng.Intn(100); {
-			case r < 15:
-				op = Op{"op": "cursor", "c": ci, "key": bush[rng.Intn(len(bush))]}
-			case r < 35:
-				op = Op{"op": "clone", "c": ci, "c2": 3 - ci}
-			default:
-				op = Op{"op": moves[rng.Intn(len(moves))], "c": ci}
+			emit(Op{"op": "cursor", "c": ci, "key": bush[rng.Intn(len(bush))]})
+			emit(Op{"op": "clone", "c": ci, "c2": 3 - ci})
+			mover := 1 + rng.Intn(2)
+			for k := 1 + rng.Intn(3); k > 0; k-- {
+				emit(Op{"op": []string{"up", "up", "next", "prev"}[rng.Intn(4)], "c": mover})
 			}
-			op["stop"] = 1
-			h.Emit(c03exec(c, st, op, rng))
+			for k := 1 + rng.Intn(3); k > 0; k-- {
+				emit(Op{"op": []string{"left", "right", "min", "max", "next", "prev"}[rng.Intn(6)], "c": mover})
+			}
+			emit(Op{"op": moves[rng.Intn(len(moves))], "c": 3 - mover})
 		}
 	}
 	nh := c.Pick(300, 8000)
